@@ -2,7 +2,7 @@
 from .. import oracles
 from ..propkit import with_oracle
 from ..suites_ops import K4Sem
-from ..suites_sql import K5Near, K5SemOpt
+from ..suites_sql import K5Near, K5SemOpt, K5Twins
 
 PROPERTY = "C02"
 LEAN_MODULES = ["DAVerif.Props.C01core", "DAVerif.Props.C04merge", "DAVerif.Props.C01joins", "DAVerif.Props.C16full", "DAVerif.Props.C18"]
@@ -65,6 +65,8 @@ SUITES = [
     with_oracle(K5SemOpt, oracles.oracle_C02, every=1, ignore_kinds=("pandas-raised",), corpus_dir="C02"),
     K5Near(dialects=("postgres",)),
     K4Sem(),
+    # the same calls on twin inputs under CTE elimination (what a cache key must tell apart)
+    with_oracle(K5Twins, oracles.oracle_C02, name="k5_twins", ignore_kinds=("pandas-raised",)),
 ]
 SUITES[0].n_quick = 200
 SUITES[1].n_quick = 200
